@@ -168,16 +168,19 @@ func VerifH_usc() {
 	gb, cc := w.gb, w.cc
 	ai := verifCase("arg_sc")
 	verifAssume(ai >= 0 && ai <= vM+1)
+	// the reported connection: one of the universe's, one the balancer never created, one removed earlier
 	var sc balancer.SubConn
-	switch ai {
-	case 0:
-		sc = w.scs[0]
-	case 1:
-		sc = w.scs[1]
-	case 2:
-		sc = cc.fresh[0] // a connection the balancer never created ("unknown")
+	switch {
+	case ai < vM:
+		for i := 0; i < vM; i++ {
+			if ai == i {
+				sc = w.scs[i]
+			}
+		}
+	case ai == vM:
+		sc = cc.fresh[0]
 	default:
-		sc = w.dead[0] // a connection that was removed earlier
+		sc = w.dead[0]
 	}
 	s := connectivity.State(verifInt("arg_state"))
 	verifAssume(s >= 0 && s <= 4)
